@@ -397,6 +397,7 @@ def execute(trace):
     log = []
     violation = None
     faults = {}
+    fired_kinds = []         # kinds of the injected faults that fired, in order, over all runs of the trace
 
     def hit(name, n=1):
         probes[name] = probes.get(name, 0) + n
@@ -535,6 +536,7 @@ def execute(trace):
             outcome = status.split(":")[0] if not status.startswith("exit") else status
             after = fsseam.snapshot(R)
             for f in rep.get("fired", []):
+                fired_kinds.append(f[0])
                 faults[f[0]] = faults.get(f[0], 0) + 1
                 hit({"crash_at_event": "fault_crash", "interrupt_at_event": "fault_interrupt", "eio_on_copy": "fault_eio_copy", "enospc_on_write": "fault_enospc_write",
                      "eacces_on_mkdir": "fault_eacces_mkdir"}[f[0]])
@@ -632,6 +634,8 @@ def execute(trace):
     finally:
         shutil.rmtree(B, ignore_errors=True)
     ev = probes.pop("_events", 0)
+    if violation is not None and isinstance(violation.get("detail"), dict):
+        violation["detail"]["faults_fired"] = list(fired_kinds)
     return {"violation": violation, "probes": probes, "faults": faults, "states": states, "trans": trans,
             "steps": max(ev, 1), "log": digest_hex([log, violation]), "outcome": None,
             "extra": {"mutating_events": ev}}
@@ -656,13 +660,20 @@ def _exts(lang):
 
 # ----------------------------------------------------------------------------- signature / simplification
 
+def _fired_kinds(violation):
+    d = violation.get("detail", {})
+    return d.get("faults_fired")
+
+
 def signature(trace, violation):
     """invariant | placement | -f | --incremental | pre-existing symlink inside the workspace | fault kinds  (of the minimised trace)"""
     runs = [op for op in trace["ops"] if op["op"] == "run"]
     d = violation.get("detail", {})
     n = d.get("run") or 1
     run = runs[min(n, len(runs)) - 1] if runs else {}
-    fk = "+".join(f["kind"] for op in runs for f in op.get("faults", []))
+    # the faults that actually FIRED before the violation (a planned fault that never fired is not part of what failed)
+    fired = _fired_kinds(violation)
+    fk = "+".join(fired) if fired is not None else "+".join(f["kind"] for op in runs for f in op.get("faults", []))
     inc = "--incremental" in run.get("flags", [])
     ws_link = any(op["op"] == "symlink" and "/lian_workspace/" in op["path"] + "/" for op in trace["ops"])
     return (f"{violation['cls']}|place={trace['knobs']['placement']}|force={run.get('force')}|incremental={inc}"
